@@ -450,3 +450,19 @@ def c11h(ctx):
                   'to the recursive call', fn, x,
                   fail='the all_subtiles flag of an earlier sibling can reach the recursion for this sub tile: a partially covered sub tree is '
                        'walked without coverage test')
+
+
+@rule('C11.i', floor=10)
+def c11i(ctx):
+    """shared rule, re-evaluated for this property: the meta tile walk steps through columns with the meta width and through rows
+    with the meta height (axis discipline of MetaGrid, C03.a) -- a row sequence stepped with the width skips meta tile rows on every
+    level, they are never checked against the coverage and never requested"""
+    from ..engine import run_property
+    sub = run_property(ctx.repo, 'C03', ctx.tier, only={'C03.a'})
+    for er in sub.errors:
+        raise Undecided('shared rule %s: %s' % er)
+    for o in sub.obs:
+        if not o.construct.startswith('MetaGrid.'):
+            continue
+        (ctx.ok if o.status == 'ok' else ctx.bad)('%s:%s' % (o.rule, o.construct), o.msg, o.where)
+    ctx.stats['functions'] |= {q for q in sub.stats['functions'] if 'MetaGrid.' in q}
